@@ -295,6 +295,8 @@ def run(ctx):
     limits = [200, 500, 1000] if ctx.quick() else [200, 500, 1000, 3000]
     for limit in limits:
         between = {kind: rng.choice([2 * limit // 5, 11 * limit // 20]) for kind in KINDS_LISTS}
+        if ctx.quick():
+            between = {kind: between[kind] for kind in rng.sample(KINDS_LISTS, 4)}         # (quick tier: four of the nine, drawn)
         for kind in KINDS + KINDS_LISTS:
             # (2/5 and 11/20 of the limit: between "everything fits" and "grouping overflows" — there a tree can come back that a traversal cannot walk)
             for depth in sorted({3, limit // 20, limit // 8, limit // 4, 2 * limit // 5, limit // 2, 11 * limit // 20, limit, 2 * limit}):
@@ -305,11 +307,13 @@ def run(ctx):
                         continue      # (slow, and the depth scan at limit 80 covers these entry points at every depth)
                     if ctx.quick() and rng.random() < 0.6 and not (kind in KINDS_LISTS and limit >= 1000):
                         continue
+                    if ctx.quick() and limit >= 1000 and entry != 'parse' and depth in (2 * limit // 5, 11 * limit // 20):
+                        continue      # (quick tier: the two in-between depths at the high limit through parse only — seconds per case)
                     if depth > 1500 and kind in ('ops', 'list', 'mixed', 'subquery', 'case', 'rsub', 'lsub', 'rcase', 'lcase'):
                         continue
-                    if kind in KINDS_LISTS and ((limit >= 500 and depth >= limit) or (limit >= 1000 and (ctx.quick() or limit > 1000) and (entry != 'parse' or depth != between[kind]))):
+                    if kind in KINDS_LISTS and ((limit >= 500 and depth >= limit) or (limit >= 1000 and (ctx.quick() or limit > 1000) and (entry != 'parse' or depth != between.get(kind)))):
                         # (str() of a list is taken at every nesting step: tens of seconds per case at these depths.  Depths from the limit on are covered at
-                        # limit 200 and by the depth scan; quick tier at limit 1000 and every tier at limit 3000: parse at one of the two in-between depths, drawn per kind)
+                        # limit 200 and by the depth scan; quick tier at limit 1000 and every tier at limit 3000: parse at one of the two in-between depths, drawn per kind — in the quick tier for four of the kinds)
                         continue
                     cases.append((kind, depth, limit, entry, opts))
     # every depth around the point where a low recursion limit starts to bite: which frame overflows first (a pass, a constructor, a filter between
@@ -326,7 +330,7 @@ def run(ctx):
             if not ctx.quick() or (depth + ki) % 9 == 0:
                 cases.append((kind, depth, SCAN_LIMIT, 'cli', {'argv': [[], ['-r']][depth % 2]}))
             for oi, opts in enumerate(scan_opts):
-                if ctx.quick() and (depth + ki + oi) % (10 if kind in KINDS_LISTS else 5):
+                if ctx.quick() and (depth + ki + oi) % (15 if kind in KINDS_LISTS else 5):
                     continue
                 cases.append((kind, depth, SCAN_LIMIT, 'format', opts))
     cases.append(('paren', 400, 200, 'soak', {}))
@@ -336,9 +340,11 @@ def run(ctx):
     # the soak is one long case: a subprocess of its own, started first
     soaks = [c for c in cases if c[3] == 'soak']
     rest = [c for c in cases if c[3] != 'soak']
-    # twice as many subprocesses as workers, the expensive cases (deep, high limit) dealt out evenly: the slowest subprocess decides the wall time
-    rest.sort(key=lambda c: -(min(c[1], c[2]) * c[2]) if c[2] >= 500 else 0)      # (stable: the cheap cases keep their order)
-    chunks = ([soaks] if soaks else []) + [rest[i::2 * k] for i in range(2 * k)]
+    # three times as many subprocesses as workers, the expensive cases (deep, high limit, constructs with several levels per step) dealt out evenly and started
+    # first: the slowest subprocess decides the wall time.  (Scheduling only; every subprocess still runs some two hundred cases.)
+    weight = {'mixed': 4, 'subquery': 2.5, 'case': 2, 'begin': 2, 'ops': 1.5, 'rsub': 3, 'lsub': 3, 'rcase': 3, 'lcase': 3, 'mcall': 2}
+    rest.sort(key=lambda c: -(min(c[1], c[2]) * c[2] * weight.get(c[0], 1)) if c[2] >= 500 else 0)      # (stable: the cheap cases keep their order)
+    chunks = ([soaks] if soaks else []) + [rest[i::3 * k] for i in range(3 * k)]
     def go(chunk):
         src = SCRIPT % {'repo': REPO, 'cases': chunk}
         try:
